@@ -818,4 +818,16 @@ Section LexWf.
         existsb (pair_eqb (l, r)) (lx_set_brackets X) && match ts with [] => false | _ => true end && forallb lterm_wf ts
     | LStatement c s p => str_mem c (lx_copulas X) && lterm_wf s && lterm_wf p
     end.
+
+  (* well-formed enum terms for C11: names as above; sets, products and conjunctions non-empty;
+     image index within the component list (the placeholder is then printed, so the list is non-empty) *)
+  Fixpoint term_ok_readme (t : term) : bool :=
+    match t with
+    | TName _ n => name_ok_readme ucls n
+    | TUnit _ | TNum _ _ => true
+    | TSet _ l | TVec _ l => match l with [] => false | _ => true end && forallb term_ok_readme l
+    | TImg _ i l => (i <=? nlen l) && forallb term_ok_readme l
+    | TBox1 _ a => term_ok_readme a
+    | TBox2 _ a b => term_ok_readme a && term_ok_readme b
+    end.
 End LexWf.
